@@ -174,6 +174,36 @@ add('C06', 'TLA+ spec Galerkin (SolutionIsInterpolant: exact polynomial values a
     'boundary incl. curved meshes. Galerkin exactness itself is a theorem that is assumed, not established by TLC.',
     'DESIGN.md section 5 C06', TRUST + ' Mode L on a theorem (uniqueness of the discrete solution).')
 
+add('C01', 'TLA+ spec AssemblySem (definitional semantics Bil/Lin/Fun/Interp over abstract integer bases, integrand grammar, '
+    'transcription of serial bilinear/linear/functional assembly and COO->CSR): TLC model checking Impl => clauses over '
+    'small abstract bases (seeded model deviations rejected) + TLC trace validation of real assemblies on exact-universe '
+    'bases (all four basis kinds, trial != test, wrappers, complex dtype) recomputed by definition + pairing laws in fixed '
+    'point for everything outside the exact universe',
+    'Exact tier: TLC recomputes every assembled entry / vector / scalar / interpolated field from the logged integer basis '
+    'tables by the definition and compares with = (BilinearRepresents, RowsAreTest, LinearRepresents, '
+    'FunctionalRepresents, InterpolateRepresents, Consistent, ParamsEnterIdentically, SubsetRestricts, FacetSideCells, '
+    'ShapeOK). Law tier: v^T A u, b^T v vs Functional(F(interpolate u, interpolate v)) within 2^-40 x magnitude for Gauss '
+    'rules, derivatives, H(div)/H(curl)/global elements, curved meshes, w.h/w.n. Defects common to assembly and '
+    'interpolate (wrong basis values) are not visible here (C03/C06/C14 see them).',
+    'DESIGN.md section 5 C01')
+add('C19', 'TLA+ spec Blocks (ElementVector/ElementComposite local-index decoding, split_indices, CompositeBasis offsets, '
+    'COOData algebra, Form.block, bmat offsets): TLC model checking of the transcriptions over all small component '
+    'signatures and COO universes + TLC trace validation of real vector/composite/block assemblies (exact) + block laws '
+    'in fixed point',
+    'TLC decides DecodeIsBijection, SplitPartitions, CellTableMatchesComponents, SplitInterpolateCommutes, '
+    'BlockMatrixEqualsCoupled, FormBlockAgrees, ListAssemblySums, DenseSparseAgree, DotAgrees, AddAgrees, LocalRoundTrip, '
+    'InverseIsLocalInverse, BmatAgrees, BmatBlockOffsets, CompositeBasisOffsets on the model and on recorded executions. '
+    'Known findings: tolocal on rectangular data, Form.block with components of different tensor order.',
+    'DESIGN.md section 5 C19')
+add('C20', 'TLA+ spec Autodiff (integer tensor algebra with textbook definitions; polynomial integrand grammar with residual '
+    'and symbolic directional derivative; transcription of NonlinearForm._assemble): TLC model checking (algebraic '
+    'identities, derivative rules vs exact stencils, assembly bookkeeping) + replay of TLC-enumerated tensors through both '
+    'helper variants + TLC trace validation of NonlinearForm.assemble on exact-universe bases',
+    'TLC decides HelperEqualsDefinition (NumPy and JAX variants, 21 helpers, 2x2 and 3x3 with trailing axes), VariantsAgree, '
+    'JacobianIsDerivative, ResidualIsMinusF, LinearReducesToAssembly exactly for polynomial integrands up to degree 3 on '
+    'scalar / vector / composite bases. Partial: transcendental integrands have no exact oracle and are not decided.',
+    'DESIGN.md section 5 C20')
+
 NOT_YET = "check not built yet (implementation in progress; see DESIGN.md section 8 for the plan)"
 NA = {'C09': "no state, transitions or discrete core: ~70 closed-form derivative formulas; TLA+/TLC cannot express "
              "real differentiation except as a numeric harness with TLC as calculator (DESIGN.md section 6)"}
